@@ -361,6 +361,7 @@ func checkC03(p *Prog, c *Check) {
 	c.Rule("R3.2", "order independence: the same properties in descending identifier order are accepted and give the same accessor values")
 	c.Rule("R3.3", "explicitly transmitted zero-valued properties are accepted and read back as zero / empty")
 	c.Rule("R3.4", "legal short forms: PUBACK-family frames of remaining length 2, 3 and 4; DISCONNECT of length 0 and 1; AUTH of length 0; frames without properties; PUBLISH with and without payload and packet identifier")
+	c.Rule("R3.7", "per wire kind the decoder primitive is structurally the inverse of the encoding (same width and byte order, prefix = length, region [2,2+len), key and value of a pair in their own fresh strings) — the contracts the replay assumes for the primitives (shared with C01 R1.4)")
 	c.Rule("R3.6", "the sequential reader advances by width() of the decoded value, and width() is what the encoder emits for that value: a valid frame's next field is read from the right offset (shared with C01 R1.4 / C15 R15.5)")
 	c.Rule("R3.5", "the length-prefixed decoder's arithmetic is free of wrap-around, so strings of 65 534 / 65 535 bytes take the same path as short ones (C04 R4.2, re-used)")
 	c.Explanation = "Oracle: abstract valid frames generated from the MQTT v5.0 layout table carried by the checker — not from the library's encoder. Each frame is a token stream (kinds and widths from the specification, values as abstract tags); the decoder's SSA form is evaluated on it with the wire primitives replaced by their contracts, and afterwards every value the frame carries is compared with what the exported accessors report. Variants per packet type: no properties, every allowed property alone, all together ascending and descending (repeatable ones twice), all with explicit zero values, and the legal short forms."
@@ -563,6 +564,16 @@ func checkC03(p *Prog, c *Check) {
 	}
 	// R3.6
 	p.widthAgreement(c, "R3.6")
+	// R3.7: the wire primitives the replay replaced by contracts really honour them (C01 R1.4, shared)
+	{
+		sub := NewCheck(c.ID, p)
+		p.checkCodecPairing(sub)
+		for _, o := range sub.Obls {
+			if o.Rule == "R1.4" {
+				c.add("R3.7", o.Construct, o.Pos, o.Status, o.Detail)
+			}
+		}
+	}
 	c.Floor("packet types", len(packetTypeNames()), 15, "15 MQTT packet types")
 	var _ ssa.Value
 }
